@@ -318,7 +318,7 @@ def expr_roundtrip_q(b0: bool, b1: bool, b2: bool, b3: bool, b4: bool, b5: bool,
     p, j = idx >> 5, idx & 31
     if p >= N_SLOT:
         return True
-    return untraced(_expr_roundtrip_impl, p, G.INTERESTING_ALT if (j == 31 and p % 2) else G.INTERESTING[j])
+    return untraced(_expr_roundtrip_impl, p, (G.INTERESTING_ALT if p % 2 else G.INTERESTING_ALT2) if (j == 31 and p % 3) else G.INTERESTING[j])
 
 
 def stmt_roundtrip_q(b0: bool, b1: bool, b2: bool, b3: bool, b4: bool, b5: bool, b6: bool, b7: bool, b8: bool, b9: bool, b10: bool, b11: bool) -> bool:
@@ -356,4 +356,4 @@ def minify_total_expr_q(b0: bool, b1: bool, b2: bool, b3: bool, b4: bool, b5: bo
     p, j = idx >> 5, idx & 31
     if ov >= N_OV or p >= N_SLOT:
         return True
-    return untraced(_minify_total_expr_impl, p, G.INTERESTING_ALT if (j == 31 and p % 2) else G.INTERESTING[j], ov)
+    return untraced(_minify_total_expr_impl, p, (G.INTERESTING_ALT if p % 2 else G.INTERESTING_ALT2) if (j == 31 and p % 3) else G.INTERESTING[j], ov)
